@@ -7,6 +7,7 @@
 //! Every output line is `<op> || <outcome> | w=<wakers called> | <snapshot>[ M!<monitors>]`.
 //! A summary JSON is written to stderr as the last line.
 
+mod barrier;
 mod common;
 mod mutex;
 mod once;
@@ -22,6 +23,7 @@ fn maker(prim: &str) -> Option<Maker> {
         "mutex" => Some(mutex::make),
         "rwlock" => Some(rwlock::make),
         "once" => Some(once::make),
+        "barrier" => Some(barrier::make),
         _ => None,
     }
 }
@@ -32,6 +34,7 @@ fn new_lines(prim: &str) -> Vec<String> {
         "mutex" => vec!["new mutex".to_string()],
         "rwlock" => vec!["new rwlock".to_string()],
         "once" => vec!["new once".to_string()],
+        "barrier" => (0..4).map(|n| format!("new barrier {}", n)).collect(),
         _ => vec![],
     }
 }
